@@ -54,17 +54,40 @@ CLAIMED = {
          "Theorems (Props/C14.lean) for all reachable states, any number of concurrent and repeated links and every termination cause: enumeration = connected minus disconnected AT EVERY INSTANT (registration+hooks and removal+hooks are single critical sections), exactly one connect of each kind with a fresh id before any request is read, at most one disconnect of each kind and only after both loops exited, per-link hook events mirror the registry's, and from every state with the context cancelled and reads failing an explicit run of <= 6 own steps reaches the disconnect. Tie 2: teardown matrix (2 APIs x 3 causes x in-flight counts x 3 peer behaviours): hook-count/enumeration oracles; each side's recorded life-cycle replayed on M4, hook logs must agree.",
          TB + "the stream decoder's ability to finish is C08Live's theorem; scheduler fairness.",
          "DESIGN.md 7 C14, 8 F4 F5b"),
+ "C01": ("Lean 4 proof over LTS model M3 (two endpoints, frames in flight as multisets) + regenerated skeleton + concurrent workloads under adversarial delivery",
+         "Theorems (Props/C01.lean) for all reachable states, any number of calls in both directions and every delivery order: call ids unique, every request/response frame carries the id/fn/args/return of exactly the thread that produced it, at most one invocation per (endpoint, id) and exactly one once returned, a returned (v, err) is the return of the unique invocation with that id and the call's fn/args (C01_result_is_own), no publish ever completes a call with a different id; a registered call can always complete (partial: from `registered`). Witnesses show recv-before-write and fresh ids are load-bearing. Tie 2: N concurrent echo calls in both directions with random / reverse / hold-all-responses delivery, 3 serializers x 2 APIs: each call returns the serial and arguments of exactly one invocation carrying its own arguments.",
+         TB + "fresh uuids; the transport delivers frames intact; M3's broadcaster abstraction (pending set) vs M1 is argued, not proved.",
+         "DESIGN.md 7 C01"),
+ "C02": ("Lean 4 proof over LTS model M3 (enabledness of the read loops independent of handler state; explicit completing runs by induction on depth) + regenerated skeleton + nested/stalled workloads",
+         "Theorems (Props/C02.lean): in every reachable state both read loops can consume any pending frame whatever the handlers, calls and publishers are doing (C02_loops_never_wait); for EVERY depth n and every set of stalled handlers an explicit run of 8+10n steps completes the alternating chain using no step of a pre-existing handler; a fresh independent call completes likewise; no panrpc lock is held while a closure runs (source fact). Witnesses: with the handler inline in the request loop a depth-2 chain is provably stuck. Tie 2: Bounce chains to depth 8 (40 thorough), binary call trees, closures that call back, a stalled closure while other closure-carrying calls start/finish and closures pass closures on, with 0/3 gated handlers per side.",
+         TB + "Go scheduler fairness; goroutine stack growth at depth.",
+         "DESIGN.md 7 C02"),
+ "C03": ("Lean 4 proof over LTS model M2 (caller side of one endpoint, embedding M1 by a projection lemma) + regenerated skeleton + fault enumeration on the real link",
+         "Theorems (Props/C03.lean) for all reachable states / schedules / fault placements: setErr always leaves the table closed, forever; on a closed table every waiting waiter has its wake-up enabled and every in-flight call reaches `returned` in <= 8 steps by an explicit run; a nil-error result implies a frame with that call id was delivered to that waiter; a call started after the end is refused, recovers and returns ErrClosed without ever writing; a panicking stub only leaves through its recover. Tie 2: one failure injected at every (side, operation kind, occurrence) and a cancellation at every operation index of a workload with k gated calls in flight, both APIs; plus a hammer (read error under 12 concurrent callers, context alive): every caller returns an error.",
+         TB + "M1's atomicity facts (one critical section per broadcaster operation); wall-clock bounds are watchdogs, not theorems.",
+         "DESIGN.md 7 C03"),
+ "C04": ("Lean 4 proof over LTS model M2 (enabledness, explicit bounded runs, frame lemma) + regenerated skeleton + schedule exploration of the real stub at its yield points",
+         "Theorems (Props/C04.lean): ctx done + live entry + no publisher at its hand-off => only the ctx case is enabled; an explicit 5-step run returns (zero, ctx error), frees the entry and touches neither setters, log nor slot; in the both-ready state the outcome is the ctx error or the call's own frame, nothing else; a late frame's publisher ends at its lookup changing nothing; steps of call c change no component of another call and not the enabledness of its steps (full statement). Tie 2: ten scenarios (response/cancel/duplicate response/link cancel/two calls) explored by DFS over the interleavings at the yield points of the real registry with a raw scripted peer, in child processes: own response or (zero, ctx error), link healthy afterwards (follow-up call).",
+         TB + "the reading of 'before its response arrives' in DESIGN.md 7 C04 (both-ready select); Go's select coin cannot be steered: schedules are repeated.",
+         "DESIGN.md 7 C04"),
+ "C05": ("Lean 4 proof over M2 + M1 (no-crash invariant through the projection lemma) + regenerated skeleton + schedule exploration and shutdown stress in child processes",
+         "Theorems (Props/C05.lean): crashed = false in every reachable state of M2 (send-on-closed / double-close are the crash-capable steps; excluded by M1's NC invariant under the regenerated facts); every reachable M2 state embeds a reachable M1 state; the table lock is never held across a blocking operation. Callee-side containment of user panics is by the utils.Call recover facts (ucRecovers, reqCallViaUtilsCall, clCallViaUtilsCall) and exercised dynamically. Tie 2: the C04 scenarios incl. duplicate/late responses and link shutdown racing responses, each schedule in a child process (crash = exit status); shutdown stress: 48 calls in flight on link/child/independent contexts cancelled concurrently with link shutdown, 400 rounds.",
+         TB + "reflect panics are C06's; user-panic containment is a source fact + dynamic check, not an LTS theorem.",
+         "DESIGN.md 7 C05, 8 F1"),
+ "C12": ("Lean 4 proof over LTS model M2 (closure table = closures of calls in flight, via a ghost owner map) + regenerated skeleton + exit-path matrix on the real link",
+         "Theorems (Props/C12.lean) for all reachable states and every exit path (success, marshal failure of a later argument, cancel, link end, panic): closure id registered <-> its owning call has not returned; table empty when no call is in flight; a lookup after the owner returned logs a miss, during the call a hit; ids are fresh and have one owner. Tie 2: kept closures invoked during and after the passing call for each exit path x 2 APIs x 3 serializers, with the read-only registration counter (verif accessor).",
+         TB + "the lookup is the linearization point of an invocation (DESIGN.md 7 C12).",
+         "DESIGN.md 7 C12"),
+ "C15": ("Lean 4 proof over M2 (waiters can always exit) and M4 (setup goroutine and loops exit, nothing enumerated) + regenerated skeleton + teardown matrix with goroutine dumps",
+         "Theorems (Props/C15.lean, C15Reg.lean): with the buffered result channel a waiter holding a response always has its send and then its Free enabled, so on a closed table every waiter reaches `exited` in <= 4 own steps; closed table => no entries; all waiters exited => empty table; `unregistered` is final and nothing is enumerated for the link; from any state with context cancelled and reads failing an explicit run of <= 6 own steps exits the setup goroutine and both loops; the stream decoder can finish (C08Live). Pinned witnesses: stranded waiter, wedged decoder. Tie 2: 2 APIs x 3 causes x in-flight counts x 3 peer behaviours: after teardown no goroutine with a panrpc frame outside application code, no closure registration, nothing enumerated.",
+         TB + "heap growth only through its causes (goroutines, table entries); scheduler fairness.",
+         "DESIGN.md 7 C15, 8 F5 F5b"),
+ "C16": ("Lean 4 proof over LTS model M2 (fatal slot, ghost log of stores, Link thread) + regenerated skeleton + fault enumeration, a deterministic schedule scenario and a hammer on the real link",
+         "Theorems (Props/C16.lean) for all failure kinds, positions and timings of secondary failures: Link has not returned while no error was stored; the returned value = the slot = the head of the store log, non-nil; table closed => slot already set, hence ErrClosed (observable only through the closed table) is never the head/slot/return value; once an error is stored Link returns within <= 2 own steps and is never parked. Pinned witnesses: ErrClosed stored first; a second error overwriting the first. Tie 2: injected failure at every operation and cancellation at every index: Link must return exactly the injected / context error; scenario read-error + new call under the controlled scheduler; hammer with 8 callers on the dying link, 300 repetitions.",
+         TB + "sync.Cond semantics as modelled (Wait = release; park; re-acquire).",
+         "DESIGN.md 7 C16, 8 F6"),
 }
-PENDING = {
- "C01": "Lean model M3 (System) in progress",
- "C02": "Lean model M3 (System) in progress",
- "C03": "Lean model M2 (Endpoint) in progress",
- "C04": "Lean model M2 (Endpoint) in progress",
- "C05": "Lean model M2 (Endpoint) in progress",
- "C12": "Lean model M2 (Endpoint) in progress",
- "C15": "Lean model M2/M4 in progress",
- "C16": "Lean model M2 (Endpoint) in progress",
-}
+PENDING = {}
 checks = []
 na = []
 for p in props:
